@@ -3,7 +3,7 @@ from __future__ import annotations
 
 import ast
 
-from .. import gf2
+from .. import codec, gf2
 from ..model import AnalysisError, dotted, norm_text, unparse, walk_no_nested
 from ..q import NONEXC, Fn, flatten_add, package_calls
 from .common import SOCKET, SOCK_CLS, sock_fn
@@ -209,6 +209,13 @@ def _inline_helper(repo, m, e):
 def _span(ctx, hm, f, node, expr, base_pred, size):
     """(lo, hi, text) of a checksum span expression when it is a constant-position slice of the header buffer; else (None, None, text)."""
     e = _inline_helper(ctx.repo, hm, expr)
+    if isinstance(e, ast.Name) and not base_pred(e) and node is not None and f is not None:
+        # the span held in a local (`checksum_data = header_bytes[2:]`): read what it stands for, keeping the buffer's own name
+        keep = {x.id for x in ast.walk(f.node) if isinstance(x, ast.Name) and base_pred(ast.Name(id=x.id, ctx=ast.Load()))}
+        try:
+            e = f.expand(e, node, keep=keep)
+        except Exception:
+            pass
     # slice bounds held in locals (e.g. `end = _STRUCT.size`) read as what they stand for
     if isinstance(e, ast.Subscript) and isinstance(e.slice, ast.Slice) and node is not None and f is not None:
         for fld in ("lower", "upper"):
@@ -247,35 +254,20 @@ def r4(ctx):
         dec = Fn(ctx.repo, hm, "HeaderDecoder.decode")
         ctx.fn(hm, "HeaderEncoder.encode")
         ctx.fn(hm, "HeaderDecoder.decode")
-        packs = enc.calls("_STRUCT.pack")
-        ctx.require(len(packs) == 1, f"{hm.relpath}: HeaderEncoder.encode has no single _STRUCT.pack call")
-        pn, pc = packs[0]
-        to_slot = None
-        for i, a in enumerate(pc.args):
-            if dotted(a) and dotted(a).endswith(".to_address"):
-                to_slot = st.slots[i]
-        ctx.require(to_slot is not None, f"{hm.relpath}: header.to_address is not packed")
-        want = f"[{to_slot.offset}:{st.size}]"
-        res = [(n, c) for n, c in enc.calls("HeaderEncodeResult")]
-        ok = False
-        found = "no HeaderEncodeResult"
-        for node, c in res:
-            kw = {k.arg: k.value for k in c.keywords}
-            hb, cd = kw.get("header_bytes"), kw.get("checksum_data")
-            if hb is None or cd is None:
-                continue
-
-            def is_packed(e, node=node):
-                if e is pc:
-                    return True
-                if isinstance(e, ast.Name):
-                    u = enc.unique_def_value(e.id, node)
-                    return u is not None and u[1] is pc
-                return False
-
-            lo, hi, txt = _span(ctx, hm, enc, node, cd, is_packed, st.size)
-            ok = is_packed(hb) and lo == to_slot.offset and hi == st.size
-            found = (f"header_bytes[{lo}:{hi}]" if lo is not None else f"`{txt}` is not a fixed-position slice of the packed header (a value-dependent span changes with the bytes it contains)") + ("" if is_packed(hb) else "; header_bytes is not the packed header")
+        packed, hb, cd = codec.header_encoding(ctx.repo, hm)
+        to_off = next((i for i, d in enumerate(hb) if isinstance(d, tuple) and d and isinstance(d[0], tuple) and str(d[0][1]).endswith(".to_address")), None)
+        ctx.require(to_off is not None, f"{hm.relpath}: header.to_address is not packed")
+        to_slot = next(sl for sl in packed.struct.slots if sl.offset == to_off)
+        want = f"[{to_off}:{st.size}]"
+        ok = len(hb) == st.size and cd == hb[to_off:]
+        if ok:
+            found = ""
+        elif len(hb) != st.size:
+            found = f"the encoder builds {len(hb)} header bytes, the decoder's struct has {st.size}"
+        else:
+            # where in the header do the checksum bytes come from?
+            pos = next((i for i in range(len(hb) - len(cd) + 1) if hb[i:i + len(cd)] == cd), None) if cd else None
+            found = f"header_bytes[{pos}:{pos + len(cd)}]" if pos is not None else f"{len(cd)} bytes that are not a fixed-position slice of the packed header (a value-dependent span changes with the bytes it contains)"
         ctx.check(ok, R, f"{gen}:HeaderEncoder:checksum_data", hm, enc.node, f"checksum_data = header_bytes{want}: from the to-address byte to the end of the header (prefix{' and outer header' if gen == 'at5' else ''} excluded)", found)
         res = [(n, c) for n, c in dec.calls("HeaderDecodeResult")]
         ok = False
